@@ -39,6 +39,7 @@ fn main() {
     let code = match args[1].as_str() {
         "run" => cmd_run(&args[2..]),
         "check" => cmd_check(&args[2..]),
+        "fuzz-seeds" => cmd_fuzz_seeds(&args[2..]),
         "list" => {
             for p in props::all() {
                 println!("{} {}", p.id, p.level);
@@ -51,6 +52,32 @@ fn main() {
         }
     };
     std::process::exit(code);
+}
+
+/// `gv fuzz-seeds <dir> [--seed N]`: write the C01 seed pool in fuzz-input format.
+fn cmd_fuzz_seeds(args: &[String]) -> i32 {
+    let Some(dir) = args.first() else {
+        eprintln!("usage: gv fuzz-seeds <dir> [--seed N]");
+        return 2;
+    };
+    let seed: u64 = arg(args, "--seed").and_then(|s| s.parse().ok()).unwrap_or(1);
+    let ctx = Ctx::new(CtxArgs {
+        prop: "C01".into(),
+        tier: Tier::Thorough,
+        profile: Profile::Rel,
+        seed,
+        shard: 0,
+        nshards: 1,
+        repo: PathBuf::from("/repo"),
+        work: PathBuf::from("/verif/.work"),
+        only: None,
+        known_findings: PathBuf::from("/nonexistent"),
+        journal: None,
+        verbose: false,
+    });
+    let n = props::c01_fuzz::write_seeds(&ctx, std::path::Path::new(dir));
+    println!("{n} seed inputs written to {dir}");
+    0
 }
 
 fn tier_of(args: &[String]) -> Tier {
